@@ -120,7 +120,14 @@ fn check(ts: &[Tt], which: &str, tot: &mut Tot, shown: &std::sync::atomic::Atomi
     let mut digest = [0u8; 64];
     // the C16 domain: lexer sequences in which `:` occurs only as `::`
     let c16 = lexer && scanprobe::oracle::c16_seq(ts);
-    unsafe { scanprobe::probe(ts.as_ptr(), ts.len(), digest.as_mut_ptr(), if c16 { 0 } else { 2 }); }
+    // The environment stubs keep the token array of the current parse in a process-global (`proc_macro2::TOKENS`, set by `ParseBuffer`): fine for
+    // the single-threaded symbolic execution they were written for, a data race here.  The probe is therefore serialised; real syn and the
+    // rendering checks, where the time goes, stay parallel.
+    static PROBE_LOCK: std::sync::Mutex<()> = std::sync::Mutex::new(());
+    {
+        let _g = PROBE_LOCK.lock().unwrap_or_else(|e| e.into_inner());
+        unsafe { scanprobe::probe(ts.as_ptr(), ts.len(), digest.as_mut_ptr(), if c16 { 0 } else { 2 }); }
+    }
     let dec = |cnt: u8, oracle: bool| -> Option<Vec<A>> {
         if cnt == 255 { return None; }
         Some((0..(cnt as usize).min(7)).map(|j| if oracle {
